@@ -51,7 +51,12 @@ def deep_attrs(d):
 
 def snap_axis(ax):
     v = np.asarray(ax.values)
-    return (str(ax.name), repr(v.tolist()), v.dtype.kind, deep_attrs(getattr(ax, "attrs", {})))
+    out = (str(ax.name), repr(v.tolist()), v.dtype.kind, deep_attrs(getattr(ax, "attrs", {})))
+    subs = getattr(ax, "axes", None)
+    if subs is not None and type(ax).__name__ in ("MultiAxis", "GroupedAxis"):
+        # a grouped axis: its member axes are part of the object's state (the tuple labels above may come from a cache)
+        out = out + (tuple(snap_axis(sub) for sub in subs),)
+    return out
 
 
 def snap(x, depth=0):
